@@ -5,6 +5,7 @@
 import BurrowVerif.Proofs.Notifier
 import BurrowVerif.Proofs.NotifierReminder
 import BurrowVerif.Proofs.NotifierConf
+import BurrowVerif.Generated.NotifierLoop
 
 namespace Burrow.Props.C14
 open Burrow Burrow.Notifier Burrow.Spec.Notifier
@@ -117,5 +118,24 @@ theorem pace_is_the_shortest_interval (ms : List ModSpec) (hne : ms ≠ []) :
 example : minIntervalOf [⟨"a", none, some 30, none, none, none, none, none⟩, ⟨"b", none, none, some 5, none, none, none, none⟩] = 30 ∧
     (⟨"b", none, none, some 5, none, none, none, none⟩ : ModSpec).cfg = ⟨"b", 2, 5, false, false⟩ ∧
     (⟨"a", none, some 30, none, none, none, none, none⟩ : ModSpec).cfg = ⟨"a", 2, 30, false, false⟩ := by decide
+
+
+/-! ### between the evaluator and the incident logic
+
+The theorems above are about `checkAndSendResponseToModules` (the stream calls it directly).  What lies
+between the evaluator's replies and it is `responseLoop`; its control skeleton is regenerated from the
+source on every run. -/
+
+/-- **every evaluation result reaches the incident logic exactly once**: `responseLoop` takes a reply,
+    skips it only when it is nil (the group is gone) or NOTFOUND, and hands every other one to
+    `checkAndSendResponseToModules` — there is no other condition, branch or hand-over in the loop.
+    (A result that is dropped can be the OK that closes an incident: the next incident is then never
+    announced to a send-once module.) -/
+theorem every_result_reaches_the_incident_logic :
+    Burrow.Generated.responseLoopSkeleton =
+      ["defer nc.running.Done()", "loop", "case response := <-nc.evaluatorResponse",
+       "assign response := <-nc.evaluatorResponse", "if response == nil", "continue",
+       "if response.Status != protocol.StatusNotFound", "call nc.running.Add(1)",
+       "go nc.checkAndSendResponseToModules(response)", "case <-nc.quitChannel", "return"] := by decide
 
 end Burrow.Props.C14
